@@ -35,14 +35,14 @@ def tasks(tier):
             n = int(sids[0][1:])
             k = {4: 4}.get(n, 1)
             for c in range(k):
-                out.append({"algo": "IPPO", "group": g, "mode": "W", "chunk": [c, k], "_cost": 5 ** n / k * 0.5})
+                out.append({"algo": "IPPO", "group": g, "mode": "W", "chunk": [c, k], "_cost": 5 ** n / k * 0.005})
         for kind in cm.OBS_KINDS:
-            out.append({"algo": "IPPO", "group": g, "mode": "S", "obs": kind, "_cost": 60})
+            out.append({"algo": "IPPO", "group": g, "mode": "S", "obs": kind, "_cost": 3})
     for g, style, sids in BOX_GROUPS:
         if style == "homo":
-            out.append({"algo": "IPPO", "group": g, "mode": "W", "_cost": 10})
+            out.append({"algo": "IPPO", "group": g, "mode": "W", "_cost": 0.3})
         for kind in cm.OBS_KINDS:
-            out.append({"algo": "IPPO", "group": g, "mode": "S", "obs": kind, "_cost": 60})
+            out.append({"algo": "IPPO", "group": g, "mode": "S", "obs": kind, "_cost": 8})
     return out
 
 
